@@ -25,19 +25,27 @@ def SEL(maxlen, scope, docset, funcs=False, spell='canon', fset='full'):
 
 def c01(tier):
     if tier == 'quick':
-        return [sel('pairs', 'C01', SEL(2, 'pairs', 'small'), ['LawFailsIffEmpty', 'Emit'])]
-    return [sel('pairs', 'C01', SEL(2, 'pairs', 'full'), ['LawFailsIffEmpty', 'Emit'], timeout=1800),
+        return [sel('pairs', 'C01', SEL(2, 'pairs', 'small'), ['LawFailsIffEmpty', 'Emit']), SLICES('C01'),
+                traceB_eval(2500, 150000, 'C01,C03,C04', EVAL_ATTR)]
+    return [sel('pairs', 'C01', SEL(2, 'pairs', 'full'), ['LawFailsIffEmpty', 'Emit'], timeout=1800), SLICES('C01'),
+            traceB_eval(2500, 150000, 'C01,C03,C04', EVAL_ATTR),
             sel('triples', 'C01', SEL(3, 'triples', 'full'), ['LawFailsIffEmpty', 'Emit'], timeout=3600),
             sel('funcs', 'C01', SEL(2, 'triples', 'full', funcs=True), ['Emit'], timeout=1800)]
 
 
-def simple_sel(prop, laws=()):
+def SLICES(prop):
+    """the integer-magnitude scope (Gen_Slice) under the oracles of another property"""
+    return dict(kind='gen', module='Gen_Slice', label='magnitudes', props='C01,C03', opts='alias=%s,allspell=1' % prop, timeout=600,
+                constants=dict(Rng=3, MaxN=4, Bigs=True, Forms='all'), invariants=['LawMech', 'LawIndex', 'Emit'])
+
+
+def simple_sel(prop, laws=(), extra=()):
     def f(tier):
         inv = list(laws) + ['Emit']
         if tier == 'quick':
-            return [sel('pairs', prop, SEL(2, 'pairs', 'small'), inv)]
+            return [sel('pairs', prop, SEL(2, 'pairs', 'small'), inv)] + [e() if callable(e) else e for e in extra]
         return [sel('pairs', prop, SEL(2, 'pairs', 'full'), inv, timeout=1800),
-                sel('triples', prop, SEL(3, 'triples', 'full'), inv, timeout=3600)]
+                sel('triples', prop, SEL(3, 'triples', 'full'), inv, timeout=3600)] + [e() if callable(e) else e for e in extra]
     return f
 
 
@@ -129,6 +137,53 @@ def traceB_parse(n_quick, n_thorough, props):
     return dict(kind='custom', fn=fn)
 
 
+def traceB_eval(n_quick, n_thorough, props, attribute):
+    """random + repository-corpus (path, document) pairs evaluated by the real library, validated by Trace_Eval"""
+    def fn(pid, tier, sdir, harness, known):
+        n = n_quick if tier == 'quick' else n_thorough
+        pp, pq, npaths, npairs = vlib.extract_corpus(sdir)
+        summ, rec, gerr = vlib.run_record(sdir, harness, ['gen-eval', '-seed', str(vlib.SEED), '-n', str(n), '-corpus', pq], props, 'receval', pid)
+        st, rejected, nrec = vlib.validate_trace(sdir, 'Trace_Eval', rec, 'trace-eval')
+        viol, hits = [], []
+        for v in summ.get('violations') or []:
+            if v['property'] == pid:
+                k = vlib.match_known(v, known)
+                (hits if k else viol).append((k, v) if k else v)
+        verdicts = {}
+        if rejected:
+            byid = {}
+            for line in open(rec):
+                r = json.loads(line)
+                byid[r['id']] = r
+            for rj in rejected:
+                verdicts[rj['verdict']] = verdicts.get(rj['verdict'], 0) + 1
+                if rj['verdict'].startswith('skip-'):
+                    continue
+                r = byid.get(rj['id'])
+                text = ''.join(chr(c) for c in r['s'])
+                prop = attribute.get(rj['verdict'])
+                if rj['verdict'] in ('model-rejects-path', 'recorder-key-order'):
+                    raise Infra('Trace_Eval: %s for %r' % (rj['verdict'], text))
+                if prop != pid:
+                    continue
+                v = {'property': pid, 'kind': rj['verdict'], 'path': text, 'document': json.dumps(r['doc'])[:2000], 'signature': 'traceB',
+                     'detail': 'decode=%s: the real library returned %s, which the specification does not admit' % (r['mode'], json.dumps(r['res'])[:800]),
+                     'case': json.dumps({'fam': 'receval', 'id': r['id'] // 2, 'hex': text.encode('utf-8', 'surrogatepass').hex(), 'doc': vlib.model_to_json(r['doc']), 'src': 'replay'})}
+                k = vlib.match_known(v, known)
+                (hits if k else viol).append((k, v) if k else v)
+        counters = dict(summ['counters'])
+        counters.update({'corpus_pairs': npairs, 'records_validated_by_TLC': nrec,
+                         'records_rejected_by_TLC': sum(v for k, v in verdicts.items() if not k.startswith('skip-'))})
+        for k, v in verdicts.items():
+            counters['tlc-verdict:' + k] = v
+        return dict(tlc_runs=[{k: st[k] for k in ('label', 'cmd', 'generated', 'distinct', 'wall_s')}], cases=summ['cases'], distinct=summ['distinct_nontrivial'],
+                    counters=counters, samples=(summ.get('samples') or [])[:2], violations=viol, known_hits=hits, exhaustive=False)
+    return dict(kind='custom', fn=fn)
+
+
+EVAL_ATTR = {'expected-values-got-error': 'C01', 'expected-failure-got-values': 'C01', 'values-differ': 'C01', 'error-not-admissible': 'C15'}
+
+
 def c02(tier):
     cn = dict(kind='tlc', module='CmpNormalize', label='cmp-normalize-terminates', constants=dict(AsCoded=False),
               invariants=['BuiltRight', 'AtMostOneSwap'], properties=['Terminates'], timeout=120, workers=1)
@@ -150,14 +205,14 @@ def c17(tier):
 CHECKS = {
     'C01': dict(stages=c01, level='model_checking'),
     'C02': dict(stages=c02, level='model_checking'),
-    'C03': dict(stages=simple_sel('C03', ['LawFailsIffEmpty']), level='model_checking'),
-    'C04': dict(stages=simple_sel('C04'), level='model_checking'),
+    'C03': dict(stages=simple_sel('C03', ['LawFailsIffEmpty'], extra=[lambda: SLICES('C03'), lambda: traceB_eval(4000, 200000, 'C03', EVAL_ATTR)]), level='model_checking'),
+    'C04': dict(stages=simple_sel('C04', extra=[lambda: traceB_eval(4000, 200000, 'C04', EVAL_ATTR)]), level='model_checking'),
     'C08': dict(stages=simple_sel('C08', ['LawCompose']), level='model_checking'),
     'C11': dict(stages=c11, level='model_checking'),
     'C12': dict(stages=c12, level='model_checking'),
     'C13': dict(stages=simple_sel('C13', ['LawLocs']), level='model_checking'),
     'C14': dict(stages=c14, level='model_checking'),
-    'C15': dict(stages=simple_sel('C15'), level='model_checking'),
+    'C15': dict(stages=simple_sel('C15', extra=[lambda: traceB_eval(6000, 200000, 'C15', EVAL_ATTR)]), level='model_checking'),
     'C17': dict(stages=c17, level='model_checking'),
     'C18': dict(stages=c18, level='model_checking'),
 }
